@@ -264,12 +264,13 @@ func c01Core(th bool) []c01Shape {
 	const K = 32 * 1024
 	methods := []string{"GET", "HEAD", "POST", "OPTIONS"}
 	reqSizes := []int{-1, 1, K + 1}
-	statuses := []int{200, 204, 304, 404, 500, 1103}
+	// codes above 1000: the final status (code-1000... see below) preceded by an interim 103
+	statuses := []int{200, 204, 304, 404, 500, 1200, 1201, 1404, 1204}
 	respSizes := []int{0, 1, K + 1}
 	if th {
 		methods = []string{"GET", "HEAD", "POST", "PUT", "PATCH", "DELETE", "OPTIONS"}
 		reqSizes = []int{-1, 0, 1, K - 1, K, K + 1, 3*K + 7}
-		statuses = []int{200, 201, 204, 206, 301, 304, 404, 418, 500, 503, 1103}
+		statuses = []int{200, 201, 204, 206, 301, 304, 404, 418, 500, 503, 1200, 1201, 1204, 1301, 1404, 1500}
 		respSizes = []int{0, 1, K - 1, K, K + 1, 3*K + 7}
 	}
 	var out []c01Shape
@@ -284,21 +285,21 @@ func c01Core(th bool) []c01Shape {
 				}
 				for _, st := range statuses {
 					for _, ps := range respSizes {
-						if (st == 204 || st == 304) && ps != 0 {
+						if (st%1000 == 204 || st%1000 == 304) && ps != 0 {
 							continue
 						}
 						for _, fr := range []string{"length", "chunked", "flush"} {
-							if (st == 204 || st == 304) && fr != "length" {
+							if (st%1000 == 204 || st%1000 == 304) && fr != "length" {
 								continue
 							}
 							if ps == 0 && fr == "flush" {
 								continue
 							}
 							s := c01Shape{Method: m, Target: "/r", ReqSize: rs, ReqChunk: rc, Status: st, RespSize: ps, RespFrame: fr}
-							if st == 1103 {
-								s.Status, s.Interim = 200, 103
+							if st > 1000 {
+								s.Status, s.Interim = st-1000, 103
 							}
-							if st == 301 {
+							if s.Status == 301 {
 								s.RespHdr = []wire.HeaderLine{{"Location", "http://elsewhere.test/x?y=1"}}
 							}
 							out = append(out, s)
@@ -343,6 +344,7 @@ var c01HeaderSets = [][]wire.HeaderLine{
 	{{"Accept-Encoding", "identity"}},
 	{{"Accept", "*/*"}, {"User-Agent", "verif/1.0"}, {"Authorization", "Basic Zm9vOmJhcg=="}},
 	{{"Accept-Encoding", "br"}, {"If-None-Match", "\"abc\""}},
+	{{"Expect", "100-continue"}},
 }
 
 var c01RespHeaderSets = [][]wire.HeaderLine{
